@@ -638,6 +638,30 @@ func vfGccRunSeq(sc *vfGccScript, lg *vfGccLog, d *vfGccDriver) {
 			r.quiesce()
 		case "close":
 			r.close()
+		case "closeheld": // Close is called while a packet is still inside the transport, which comes back 30 ms later
+			if r.closed {
+				break
+			}
+			var err error
+			done := make(chan struct{})
+			go func() {
+				defer close(done)
+				err = r.d.close()
+			}()
+			time.Sleep(30 * time.Millisecond)
+			r.release()
+			select {
+			case <-done:
+			case <-time.After(vfGccWatchdog):
+				panic("VERIF-FAIL Close (called while a write was inside the transport) did not return within " +
+					vfGccWatchdog.String() + " after the transport came back")
+			}
+			r.closed = true
+			msg := ""
+			if err != nil {
+				msg = err.Error()
+			}
+			r.lg.add(vfM{"a": "close", "err": msg, "inj": r.sc.PCloseErr && r.sc.Pacer != "default"})
 		}
 	}
 	r.release()
